@@ -19,7 +19,7 @@ META = {
         "the Report, the client's cache and arithmetic, and the next request's security parameters."),
     "bounds": ["histories of 1..4 operations (get / set / walk step)", "clock advance before each operation from {0, 1, 149, 150, 151, 3600, 259200, 10^6} s (traced: any 0..10^6)",
                "agent boots in {1, 7, 2^31-2}, time at discovery in {0, 100, 2^30} (traced: any)", "reboot before an operation: yes / no (thorough; reported as known finding F19)",
-               "discovery reply: matching / foreign message id, with / without bindings", "levels noAuthNoPriv, authNoPriv (MD5), authPriv (SHA-1)", "default and explicit (different) context engine id"],
+               "discovery reply: matching / foreign message id, with / without bindings", "levels noAuthNoPriv, authNoPriv (MD5), authPriv (SHA-1)", "default and explicit (different) context engine id", "two clients talking to two engines (different boots / time) on one clock, interleaved with advances"],
     "outside": ["clock going backwards", "snmpEngineTime wrapping past 2^31-1", "client and agent clocks drifting apart (one virtual clock drives both)"],
     "stubs": ["sender = trampoline", "all clocks = one virtual clock", "get_request_id pinned", "privacy plug-in = harness stream cipher"],
     "assumptions": ["a conformant non-authoritative engine may estimate snmpEngineTime from its own clock (RFC 3414 2.3)"],
@@ -195,6 +195,62 @@ def make_harness(kind, nops, reboots=False, traced=False, explicit_ctx=False):
     return h
 
 
+def make_two_clients(kind):
+    """Client A discovers, time passes, client B (another agent) discovers, time passes, A and B issue requests."""
+    def h(a0, a1, a2, order):
+        problem = None
+        with window():
+            adv = [ADVANCES[choose(a, 0, len(ADVANCES) - 1)] for a in (a0, a1, a2)]
+            first = choose(order, 0, 1)
+            vc = VClock().install()
+            try:
+                worlds = []
+                for wi in range(2):
+                    start = vc.now
+                    t0 = 100 + 5000 * wi
+                    worlds.append(C.World(kind, Database(UNIVERSE), boots=3 + wi, clock=(lambda t0=t0: int(vc.now - 5000) + t0),
+                                          agent_engine_id=(C.ENGINE_ID if wi == 0 else b"\x80\x00\x1f\x88\x04second-engine")))
+                try:
+                    plan = [(0, adv[0]), (1, adv[1]), (first, adv[2]), (1 - first, 0)]
+                    for step, (wi, wait) in enumerate(plan):
+                        vc.now += wait
+                        w = worlds[wi]
+                        before = len(w.exchanges)
+                        try:
+                            got = C.to_ref(w.run(w.client.get(C.poid(C.U14[2]))))
+                            if got != UNIVERSE[2][1]:
+                                problem = "step %d: client %d got %r" % (step, wi, got)
+                        except Exception as exc:  # noqa: BLE001
+                            fid = w.known_exception(exc)
+                            if fid and known(fid):
+                                break
+                            problem = "step %d (waits %r): client %d failed: %s: %s" % (step, adv, wi, type(exc).__name__, exc)
+                        if problem:
+                            break
+                        now_engine = w.engine.clock()
+                        for data, _resp in w.exchanges[before:]:
+                            msg = ber.dec_v3_msg(data)
+                            if msg.usm.engine_id == b"":
+                                continue
+                            if msg.usm.engine_id != w.engine.engine_id or msg.usm.boots != w.engine.boots \
+                                    or not (now_engine - 150 <= msg.usm.time <= now_engine + 150):
+                                problem = "step %d: client %d sent engine/boots/time %r/%r/%r, its agent is at %r/%r" % (
+                                    step, wi, msg.usm.engine_id, msg.usm.boots, msg.usm.time, w.engine.boots, now_engine)
+                        if problem:
+                            break
+                finally:
+                    for w in worlds:
+                        w.close()
+            finally:
+                vc.remove()
+        reached()
+        if problem:
+            h.last_problem = problem
+            return False
+        return True
+    return h
+
+
 def jobs(tier):
     quick = tier == "quick"
     out = []
@@ -234,6 +290,9 @@ def jobs(tier):
                 ax[0], ax[1] = Arg("boots", 1, 1), Arg("t0", 1, 1)
             out.append(Job(f"history-{kind}-{nops}ops-explicit-context-engine-id", make_harness(kind, nops, explicit_ctx=True), ax,
                            timeout=600 if quick else 1500, mode="E/concolic-window", functions=tf, sample_every=13))
+    for kind in ("md5",) if quick else ("noauth", "md5", "sha1priv"):
+        out.append(Job(f"two-clients-{kind}", make_two_clients(kind), [Arg(f"adv{i}", 0, len(ADVANCES) - 1) for i in range(3)] + [Arg("order", 0, 1)],
+                       timeout=600, mode="E/concolic-window", functions=tf, sample_every=13))
     ar = args(2, True, discos=False)
     if quick:
         ar[0], ar[1] = Arg("boots", 0, 0), Arg("t0", 0, 1)
